@@ -113,6 +113,7 @@ type Case struct {
 	yield    func()
 	hooked   bool
 	baseline bool
+	brf, brs bool
 }
 
 // Options of NewCase.
@@ -122,7 +123,23 @@ type Options struct {
 	// Baseline: every execution of a "shared" script/program uses a freshly
 	// compiled/parsed private object instead (the solo reference).
 	Baseline bool
+	// NoBridgeFunc / NoBridgeSlice switch off the two Probe items that exercise
+	// the open known finding F-C20-001 (results of reflected Go functions; the
+	// length of the bridged slice). Only the free-running race pass sets them,
+	// and only while the supervisor's pre-check finds the defect present: with
+	// halt_on_error the known race would otherwise end the pass at once and
+	// hide every other race.
+	NoBridgeFunc, NoBridgeSlice bool
 }
+
+// bridgedStruct is the Go struct the template exposes by pointer.
+type bridgedStruct struct {
+	N int
+	S string
+}
+
+// Twice is a method callable from JavaScript.
+func (b *bridgedStruct) Twice() int { return 2 * b.N }
 
 func lcg(seed uint32) func() float64 {
 	s := seed
@@ -143,6 +160,18 @@ func (c *Case) equip(tid int, vm *otto.Otto) {
 		*logp = append(*logp, strings.Join(parts, " "))
 		return otto.UndefinedValue()
 	})
+	_ = vm.Set("halt", func(call otto.FunctionCall) otto.Value {
+		// stop the script through the runtime's own Interrupt channel, if it has one
+		if vm.Interrupt != nil {
+			select {
+			case vm.Interrupt <- func() { panic("c20: halted through the runtime's own Interrupt channel") }:
+			default:
+			}
+		}
+		return otto.UndefinedValue()
+	})
+	_ = vm.Set("BRF", c.brf)
+	_ = vm.Set("BRS", c.brs)
 	_ = vm.Set("TID", tid+1) // per-thread constant: lets equal programs pass different arguments
 	// per-runtime settings, changed AFTER a Copy: they must not reach the
 	// template or the sibling (Finish observes all of them at rest)
@@ -226,7 +255,7 @@ func parseProgram(src string) *ast.Program {
 // NewCase instantiates a scenario.
 func NewCase(sp Spec, opt Options) *Case {
 	n := len(sp.Bodies)
-	c := &Case{Spec: sp, Logs: make([][]string, n), VMs: make([]*otto.Otto, n), yield: opt.Yield, hooked: opt.Yield != nil, baseline: opt.Baseline}
+	c := &Case{Spec: sp, Logs: make([][]string, n), VMs: make([]*otto.Otto, n), yield: opt.Yield, hooked: opt.Yield != nil, baseline: opt.Baseline, brf: !opt.NoBridgeFunc, brs: !opt.NoBridgeSlice}
 	c.Threads = make([]func(), n)
 
 	newTemplate := func(syncPoints bool, queued int) *otto.Otto {
@@ -234,6 +263,18 @@ func NewCase(sp Spec, opt Options) *Case {
 		if res := ox.Run(t, Prelude); res.Err != nil || res.Panicked {
 			panic(fmt.Sprintf("c20: prelude failed: %v %v", res.Err, res.PanicVal))
 		}
+		// bridged Go values of every kind, set on the template before any Copy()
+		// (the Go data behind a slice / map / pointer is the embedder's and is
+		// common to all copies by construction; the probes only read it, apart
+		// from the length of the slice, which is otto's own state)
+		_ = t.Set("gslice", []int{1, 2, 3})
+		_ = t.Set("gmap", map[string]int{"a": 1, "b": 2})
+		_ = t.Set("gstruct", &bridgedStruct{N: 7, S: "s"})
+		_ = t.Set("garray", [2]int{4, 5})
+		_ = t.Set("gmk", func() []int { return []int{1, 2} })
+		_ = t.Set("gconv", func(n int) int { return n * 2 })
+		_ = t.Set("gcb", func(f func(int) int) int { return f(20) + 1 })
+		_ = t.Set("gff", func() func() int { return func() int { return 9 } })
 		// per-runtime state of the template, all installed BEFORE any Copy():
 		// Interrupt channel (buffered) with a queued function meant for the
 		// template only, stack depth limit, trace limit, random source,
@@ -380,7 +421,7 @@ const PostSrc = "debugger; " + postExpr
 
 // TemplatePostSrc additionally observes the template's user state, which no
 // copy may have changed.
-const TemplatePostSrc = `debugger; [T.arr.join(), T.counter, T.seen, T.re.lastIndex, T.d.getTime(), T.err.message, T.obj.n.deep[0], "gone" in T.obj, T.args[0], T.cat("t"), T.next(), T.calls, T.where, T.gsv, T.proto.pc, T.rd(), T.ev(), T.cth(), T.wth()].join("|") + "#" + ` + postExpr
+const TemplatePostSrc = `debugger; [T.arr.join(), T.counter, T.seen, T.re.lastIndex, T.d.getTime(), T.err.message, T.obj.n.deep[0], "gone" in T.obj, T.args[0], T.cat("t"), T.next(), "bridge", gslice.length, typeof Array.prototype.leak, gmk() instanceof Array, "/bridge", T.calls, T.where, T.gsv, T.proto.pc, T.rd(), T.ev(), T.cth(), T.wth()].join("|") + "#" + ` + postExpr
 
 func runLine(vm *otto.Otto, what string, src interface{}) string {
 	res := ox.Run(vm, src)
@@ -449,8 +490,12 @@ func RenderLogs(logs [][]string) string {
 }
 
 // SoloThread runs thread i of a fresh baseline instance alone and returns its log.
-func SoloThread(sp Spec, i int) []string {
-	c := NewCase(sp, Options{Baseline: true})
+func SoloThread(sp Spec, i int) []string { return SoloThreadOpt(sp, i, Options{}) }
+
+// SoloThreadOpt is SoloThread with the bridge switches of opt.
+func SoloThreadOpt(sp Spec, i int, opt Options) []string {
+	opt.Baseline, opt.Yield = true, nil
+	c := NewCase(sp, opt)
 	c.Threads[i]()
 	c.Finish()
 	return c.Logs[i]
